@@ -56,7 +56,7 @@ pub fn run(rep: &mut Report) {
                 let j = both as f64 / u as f64;
                 let degenerate = j == 0. || j == 1.;
                 let cost = (u + m * if is_rev { 40 } else { 4 }) as f64;
-                let budget: f64 = rep.tier.pick(1.5e8, 6e9);
+                let budget: f64 = rep.tier.pick(1.5e8, 2.5e9);
                 let tt = ((budget / cost) as u64).clamp(400, t1);
                 let kindt = if degenerate { Kind::Exact } else { Kind::TwoSided };
                 // disjoint sets: the u64 view holds item hashes (exactly 0 collisions); two different items can legitimately draw the
